@@ -83,7 +83,10 @@ CHECKS = {
         "exceptions from the operation, before_sleep or the sleeper end the trace at that call and are delivered unchanged) for "
         "all configurations/environments of the Gallina model of the retry loop. Under attempt_timeout_s the async runs are tasks "
         "of a real asyncio loop on virtual time: cancellation is delivered by task.cancel() and work left on the loop after the "
-        "run is made visible in the trace.",
+        "run is made visible in the trace. The sugar entry points are compared with the Policy model (breaker = None); cancellations "
+        "are also raised as a CancelledError subclass that derives from Exception — the check demonstrated on the pinned tree that "
+        "sync Policy classified, recorded and (no-retry execute) swallowed those (fix commit f52464c, "
+        "findings/witness/C13-pinned-tree.json).",
         RUNNER_NOTE, "DESIGN.md §4 C13, §15",
     ),
     "C16": (
@@ -251,7 +254,7 @@ def main():
             "observe it through scripted callbacks, spies and a virtual clock; REDRESS_VERIF=1 is exported but unused; "
             "source_commits lists the unguarded `fix:` commits (repairs of genuine defects, see known-findings.txt), not hooks",
             "baseline_off_cmd": "cd /repo && /venv/bin/python -m pytest -ra -q -p no:cacheprovider --timeout=900",
-            "source_commits": ["7959b97", "4805882", "e37d3df", "a10e77c", "7a1aae8", "844555a", "ca75464", "57ff40d"],
+            "source_commits": ["7959b97", "4805882", "e37d3df", "a10e77c", "7a1aae8", "844555a", "ca75464", "57ff40d", "f52464c"],
             "add_only": True,
         },
         "engines": [
